@@ -551,7 +551,8 @@ impl InnerLocustDB {
             let columns: Vec<_> = partition
                 .clone_column_handles()
                 .into_iter()
-                .map(|c| c.try_get().as_ref().unwrap().clone())
+                // A concurrent query for a column this partition does not have leaves an empty marker handle.
+                .filter_map(|c| c.try_get().as_ref().cloned())
                 .collect();
             let (metadata, subpartitions) = subpartition(&self.opts, columns);
             let mut subpartitions_by_last_column = BTreeMap::new();
